@@ -1200,12 +1200,17 @@ MUTANTS = [
       "        np.random.seed(1337)\n        p = p - p[:, t[0, :1]]\n"
       "        p = p + 1e-10 * np.abs(p[:, t]).max() * "
       "np.random.random(p.shape)"), "C15-R4"),
-    ("to_meshio updates the caller's dictionary again",
+    ("to_meshio merges its keys into the caller's dictionary (no copy, "
+     "in-place update)",
      ("skfem/io/meshio.py",
-      "        cell_data = {**({} if cell_data is None else cell_data),\n"
+      "    if cell_data is not None:\n        cell_data = {k: (list(v) if "
+      "isinstance(v, (list, tuple)) else [v])\n                     for k, "
+      "v in cell_data.items()}\n\n    if encode_cell_data:\n        "
+      "cell_data = {**({} if cell_data is None else cell_data),\n"
       "                     **mesh._encode_cell_data()}",
-      "        if cell_data is None:\n            cell_data = {}\n"
-      "        cell_data.update(mesh._encode_cell_data())"), "C15-R5"),
+      "    if encode_cell_data:\n        if cell_data is None:\n"
+      "            cell_data = {}\n        cell_data.update("
+      "mesh._encode_cell_data())"), "C15-R5"),
     ("from_dict works on its argument again",
      ("skfem/mesh/mesh.py", "        data = dict(data)  # do not modify the "
       "argument\n", ""), "C15-R5"),
